@@ -841,6 +841,35 @@ func c01GenCase(r *vRand, kind int) vCase {
 			g.helloInternal(g.connectFrom(other), 0)
 		}
 		g.helloV1(g.connectFrom(addr), 0) // other hello kinds are not throttled
+	case 7: // a resume racing with the end of the session it names
+		// scripted opening: sessions on connections, some of them detached; random other traffic; then one race
+		var conns []int
+		for i, n := 0, 1+r.intn(3); i < n; i++ {
+			c := g.connect()
+			g.goodHello(c)
+			conns = append(conns, c)
+		}
+		k := 1 + r.intn(len(conns)) // session k was created on conns[k-1] (if every hello was accepted)
+		end := r.pick([]string{"bye", "expire", "expire"})
+		if end == "expire" {
+			g.ops = append(g.ops, fmt.Sprintf("disconnect c=%d", conns[k-1]))
+		}
+		for i, n := 0, r.intn(3); i < n; i++ {
+			switch r.intn(3) {
+			case 0:
+				g.preHello(g.connect(), 1+r.intn(2))
+			case 1:
+				g.helloResume(g.connect(), fmt.Sprintf("mut:%d:%d", k, r.intn(200)))
+			default:
+				g.goodHello(g.connect())
+			}
+		}
+		c := g.connect()
+		o := "-"
+		if end == "bye" {
+			o = strconv.Itoa(conns[k-1])
+		}
+		g.ops = append(g.ops, fmt.Sprintf("rrace c=%d rid=priv:%d end=%s o=%s first=%s", c, k, end, o, r.pick([]string{"resume", "end", "end", "free"})))
 	default: // session limits
 		for i, n := 0, 3+r.intn(5); i < n; i++ {
 			c := g.connect()
@@ -857,7 +886,7 @@ func vC01Gen(e *vEnv, r *vRand) []vCase {
 	c01InitKeys()
 	var cases []vCase
 	n := e.scale(1200, 12000)
-	weights := []int{0, 0, 0, 0, 0, 0, 1, 1, 1, 2, 2, 3, 3, 4, 4, 5, 6}
+	weights := []int{0, 0, 0, 0, 0, 0, 1, 1, 1, 2, 2, 3, 3, 4, 4, 5, 6, 7, 7}
 	for i := 0; i < n; i++ {
 		rr := r.fork()
 		cases = append(cases, c01GenCase(rr, weights[rr.intn(len(weights))]))
